@@ -1,21 +1,4 @@
-"""C09 -- reported diagnostics describe the returned point (first wiring of the pipeline)."""
-import vlib, spine, gen_cases as G
-
+"""C09 -- reported diagnostics describe the returned point."""
+from props._common import run_solver_property
 def run(ctx):
-    vlib.regen(ctx, ("consts",))
-    vlib.coq_hygiene(ctx)
-    vlib.coq_properties(ctx, "C09")
-    rng = ctx.rng
-    cases = []
-    N = 12 if ctx.quick() else 100
-    for i in range(N):
-        pb = G.gen_problem(rng)
-        st = list(G.FRIENDLY) + [("max_iter", str(rng.choice([1, 2, 3, 6, 12]))), ("preconditioner_iter", str(rng.choice([0, 1, 2, 3])))]
-        if rng.random() < 0.3: st.append(("preconditioner_scale_cost", "1"))
-        cases.append(G.case_text("c%d" % i, st, ["CPBITS 64", G.op_setup(pb), G.op_solve()]))
-        ctx.classes.add(G.signature(pb))
-    txt = "".join(cases)
-    res, mobs = spine.correspond(ctx, "c09", txt, backends=spine.ALL_BACKENDS)
-    ctx.coverage["evaluations"] = N
-    ctx.coverage["samples"] = [cases[0]]
-    return vlib.finish(ctx)
+    return run_solver_property(ctx, "C09", codes=("C09",))
